@@ -42,9 +42,14 @@ def BOUNDS(tier):
     return {"max_nodes": 3, "devs": 2, "raises": 3, "kinds_first": 4, "kinds_later": 2, "max_primary": 6}
 
 
+_PROGS = {}
+
+
 def _progs(tier):
+    if tier in _PROGS:
+        return _PROGS[tier]
     b = BOUNDS(tier)
-    out = []
+    out = _PROGS.setdefault(tier, [])
     for p in progs.programs(b["max_nodes"], b["devs"], SCHEMA):
         q = progs.clone(p)
         for nd in progs.walk(q):
